@@ -153,3 +153,4 @@ def run(res, facts, tier):
     res.assume('C01: what each instruction does, alone or combined, is behavioural and not decided')
     from . import c01_ns
     c01_ns.run(res, facts)
+    c01_ns.r4_literal_namespaces(res, facts)
